@@ -477,6 +477,7 @@ def load_known(pid):
 
 def write_replay(pid, n, payload):
     os.makedirs(REPLAY, exist_ok=True)
+    payload.setdefault("repo", os.path.abspath(REPO))
     path = os.path.join(REPLAY, f"{pid}-{n}.json")
     with open(path, "w") as f:
         json.dump(payload, f, indent=1)
@@ -642,8 +643,11 @@ def check(pid, tier, seed):
     ev = {"property_id": pid, "tier": tier, "seed": seed, "level": level, "coverage": coverage,
           "assumptions": assumptions, "wall_s": round(time.time() - t0, 2), "violations": len(violations),
           "known_findings_reported": len(known_lines), "repo": os.path.abspath(REPO)}
-    os.makedirs(EVIDENCE, exist_ok=True)
-    with open(os.path.join(EVIDENCE, pid + ".json"), "w") as f:
+    # evidence under /verif/evidence is only ever written by runs against /repo itself; runs
+    # against a scratch checkout (EASYML_REPO, used for seeded changes) write elsewhere
+    ev_dir = EVIDENCE if os.path.abspath(REPO) == "/repo" else os.path.join(WORK, "evidence-scratch")
+    os.makedirs(ev_dir, exist_ok=True)
+    with open(os.path.join(ev_dir, pid + ".json"), "w") as f:
         json.dump(ev, f, indent=1)
 
     for l in sorted(set(known_lines)):
